@@ -431,6 +431,10 @@ func (g *xgen) lambda(d int) string {
 	names := make([]string, 0, n)
 	for len(names) < n {
 		nm := g.name()
+		if g.r.Chance(0.15) {
+			// a parameter that shadows a name of the context (in any letter case)
+			nm = g.caseMix(fw.Pick(g.r, []string{"foo", "bar", "arr", "obj", "contact", "results", "words", "dt"}), 0.3)
+		}
 		dup := false
 		for _, o := range names {
 			if strings.EqualFold(o, nm) {
